@@ -20,6 +20,72 @@ ENGINES = {
 
 # id -> (engine, category, technique, level text, level note)
 CHECKS = {
+    'C01': (
+        'pipeline-sim', 'exploration',
+        'Hypothesis-generated engines x operation histories on the real '
+        'schedule+farm; invariant over the history with harness ground truth '
+        'for "executing" and a reference ancestor closure',
+        'Each generated history (requests, re-requests of executing units, '
+        'version builds, ticks, worker joins, replies in any order with any '
+        'outcome) runs the real scheduler and farm; at every release the '
+        'reference ancestors are checked for pending work (node todo and '
+        'view_todo) and executing work (released-and-unanswered, tracked by '
+        'the harness, not by the scheduler). Bounded sampling.',
+        'FSM stand-in (always active); stub database; <=6 algorithms, <=4 '
+        'targets, <=60 operations.',
+    ),
+    'C02': (
+        'pipeline-sim', 'exploration',
+        'history invariant (completeness right after each report, '
+        'justification flag per release) on generated engines and histories; '
+        'end-to-end equivalence with a from-scratch evaluation on a real '
+        'shelve store',
+        'Part law: after each success report the dependents whose declared '
+        'inputs meet the new values must be pending (both inclusions: nothing '
+        'else may become pending), every release must be justified since the '
+        'previous release of that unit, and a failure-free history drained to '
+        'quiescence leaves no justified unit unreleased.',
+        'declared inputs from the reference graph; failure-free histories for '
+        'the end-of-history clause; stub database in part law.',
+    ),
+    'C03': (
+        'pipeline-sim', 'exploration',
+        'history invariants on generated engines and histories with '
+        'pass-through spies on complete/update/purge/chronicle.append and '
+        'decoded worker transports',
+        'After every operation: no two released-and-unanswered units share '
+        '(algorithm, target); task frames on worker transports = handed '
+        'units, the rest is still in farm._cluster; crew() busy list = '
+        'handed-and-unanswered; each reply causes exactly one complete, one '
+        'chronicle append and one update (success) or purge (otherwise).',
+        'workers answer only what they were handed, once; FSM stand-in.',
+    ),
+    'C04': (
+        'pipeline-sim', 'exploration',
+        'history invariants + bounded-liveness drain on generated engines '
+        'and histories (failures anywhere, empty target lists, analyses '
+        'below tasks)',
+        'Idle (nothing pending, nothing unanswered) must show an empty '
+        'queue/todo/doing/crew; a pending unit whose reference ancestors are '
+        'idle for it must be released by the next dispatch; after the '
+        'history a drain loop with workers that always answer (every third '
+        'answer a failure) must quiesce within 2*(algs*(targets+1))+5 rounds.',
+        'liveness only in this bounded, harness-scheduled form.',
+    ),
+    'C05': (
+        'pipeline-sim', 'fault_enumeration',
+        'before/after frame condition on every node for generated failure '
+        'points; every in-flight unit x {failure, invalid} injected at the '
+        'end of generated prefixes',
+        'For each non-success reply the node snapshots before/after are '
+        'compared: target withdrawn from every reference descendant, other '
+        'targets and unrelated algorithms untouched, no pending set grows, '
+        'update not called, exactly one chronicle entry with the outcome. '
+        'Part enumerate re-executes a generated prefix once per in-flight '
+        'unit and outcome.',
+        'nothing asserted about a dependent that is executing the target or '
+        'about the failing job\'s own pending set.',
+    ),
     'C09': (
         'generators', 'exploration',
         'Hypothesis-generated engine packages (both factory styles, on disk, '
